@@ -311,13 +311,22 @@ func (r *Rig) Exec(blk *types.Block, feeWant int64) (*Outcome, *types.BlockDetai
 
 // Connect executes the block (as Exec) and then connects it to the chain through
 // BlockChain.ProcAddBlockMsg, which executes it again and persists state and local data.
-func (r *Rig) Connect(blk *types.Block, feeWant int64) *Outcome {
-	out, _ := r.Exec(blk, feeWant)
+//
+// peer: the block is delivered as a block received from a peer - pre-executed header fields
+// (TxHash, StateHash) filled in, so that ProcAddBlockMsg also verifies the transaction signatures
+// (types.VerifySignature, parallel over the CPUs), the transaction root and the state root.
+func (r *Rig) Connect(blk *types.Block, feeWant int64, peer bool) *Outcome {
+	out, pre := r.Exec(blk, feeWant)
 	if out.Rejected && out.LocalErr == "" {
 		return out
 	}
 	b3 := types.Clone(blk).(*types.Block)
-	detail, err := r.chain.ProcAddBlockMsg(false, &types.BlockDetail{Block: b3}, "self")
+	pid := "self"
+	if peer && pre != nil && pre.Block != nil {
+		b3 = types.Clone(pre.Block).(*types.Block)
+		pid = "verif-peer"
+	}
+	detail, err := r.chain.ProcAddBlockMsg(false, &types.BlockDetail{Block: b3}, pid)
 	if err != nil {
 		out.Rejected, out.Err = true, "connect: "+err.Error()
 		return out
